@@ -576,6 +576,8 @@ def entries(cls: str, tier: str) -> list[dict]:
 
 def tmpl_params(params: dict) -> dict:
     out = dict(params)
+    if "_delegate" in out:
+        out[out.pop("_delegate")] = tmpl.Child(0)
     if "expression" in out:
         out["expression"] = tmpl.Child(0)
     if "expressions" in out:
@@ -594,6 +596,89 @@ def operator_classes(repo: Repo) -> list[tuple[str, str]]:
     return out
 
 
+def _delegating(fn: ast.FunctionDef, method: str) -> str | None:
+    """``self.<attr>.<method>(<the function's own parameters, in order>)`` as the whole body."""
+    body = [s for s in fn.body if not (isinstance(s, ast.Expr) and isinstance(s.value, ast.Constant))]
+    if len(body) != 1:
+        return None
+    s0 = body[0]
+    call = s0.value if isinstance(s0, (ast.Return, ast.Expr)) else None
+    if not isinstance(call, ast.Call) or call.keywords:
+        return None
+    f = call.func
+    if not (isinstance(f, ast.Attribute) and f.attr == method and isinstance(f.value, ast.Attribute) and isinstance(f.value.value, ast.Name) and f.value.value.id == "self"):
+        return None
+    want = [a.arg for a in fn.args.args][1:]
+    got = [a.id if isinstance(a, ast.Name) else None for a in call.args]
+    if want != got:
+        return None
+    if method == "parse" and not isinstance(s0, ast.Return):
+        return None
+    return f.value.attr
+
+
+def delegation_checks(repo: Repo, rep: OpReport, rel: str, cls: str) -> str | None:
+    """Operators that delegate parse() and generate() to an expression built in
+    __init__: both siblings must delegate to the same attribute, the attribute must
+    be written only in __init__, and its constructor expression must normalise to the
+    unrolled form of the specification table."""
+    from . import terms
+
+    rp = repo.resolve_method(cls, "parse")
+    rg = repo.resolve_method(cls, "generate")
+    if rp is None or rg is None:
+        return None
+    a = _delegating(rp[2], "parse")
+    if a is None:
+        return None
+    construct = f"{rel}::{cls}"
+    b = _delegating(rg[2], "generate")
+    ok = a == b
+    what = f"parse() and generate() delegate to the same expression self.{a}" if ok else f"parse() delegates to self.{a} but generate() delegates to {('self.' + b) if b else 'its own template'}"
+    rep.oblige({"C01"}, "DELEGATE", construct, what, ok)
+    if not ok:
+        return None
+    # writes of the attribute
+    _, cnode = repo.class_table[cls]
+    init = None
+    writes_elsewhere = []
+    assign = None
+    for fn in cnode.body:
+        if not isinstance(fn, ast.FunctionDef):
+            continue
+        for n in ast.walk(fn):
+            tgts = n.targets if isinstance(n, ast.Assign) else [n.target] if isinstance(n, (ast.AugAssign, ast.AnnAssign)) else []
+            for t in tgts:
+                if isinstance(t, ast.Attribute) and isinstance(t.value, ast.Name) and t.value.id == "self" and t.attr == a:
+                    if fn.name == "__init__":
+                        init = fn
+                        assign = n
+                    else:
+                        writes_elsewhere.append(fn.name)
+    ok = not writes_elsewhere and assign is not None
+    what = f"self.{a} is built once in __init__" if ok else f"self.{a} is written outside __init__ ({writes_elsewhere})" if writes_elsewhere else f"self.{a} is never assigned in __init__"
+    rep.oblige({"C01", "C03", "C15"}, "DELEGATE", construct, what, ok)
+    if assign is None or init is None or getattr(assign, "value", None) is None:
+        return a
+    want = terms.UNROLLED.get(cls)
+    if want is None:
+        raise AnalysisError(f"{construct}: delegating operator without an unrolled form in the specification table")
+    pnames = [x.arg for x in init.args.args][1:]
+    if not pnames:
+        raise AnalysisError(f"{construct}.__init__: no operand parameter")
+    counts = {"number": "number", "min_": "min", "max_": "max", "min": "min", "max": "max", "num": "number"}
+    nz = terms.Normaliser(f"{construct}.__init__", {pnames[0], f"self.{pnames[0]}"}, {k: v for k, v in counts.items() if k in pnames or k in ("number", "min", "max")})
+    got = nz.term(assign.value)
+    ok = got == want
+    what = (
+        f"self.{a} is the unrolled form {terms.term_str(want)}" if ok
+        else f"self.{a} is built as {terms.term_str(got)} where the unrolled form {terms.term_str(want)} is specified"
+    )
+    rep.oblige({"C01", "C03", "C04"}, "UNROLLED", construct, what, ok, Finding("UNROLLED", construct, what if not ok else "", f"{cls}: {what}", {"built": terms.term_str(got), "specified": terms.term_str(want)}))
+    rep.count("delegating_operators")
+    return a
+
+
 def analyse(repo: Repo, tier: str = "quick") -> OpReport:  # noqa: PLR0912, PLR0915
     rep = OpReport()
     masks = ops.modifier_masks(repo)
@@ -605,7 +690,11 @@ def analyse(repo: Repo, tier: str = "quick") -> OpReport:  # noqa: PLR0912, PLR0
             rep.units.setdefault("operators_without_spec", 0)
             rep.units["operators_without_spec"] += 1
         rep.count("operator_classes")
+        deleg = delegation_checks(repo, rep, rel, cls)
+        spec_cls = "Group" if deleg else cls
         for params, unroll in bindings(cls, tier):
+            if deleg:
+                params = {**params, "_delegate": deleg}
             tp = tmpl_params(params)
             sks = tmpl.operator_skeletons(repo, rel, cls, tp)
             for sk in sks:
@@ -629,8 +718,8 @@ def analyse(repo: Repo, tier: str = "quick") -> OpReport:  # noqa: PLR0912, PLR0
                     all_recs.extend(grecs)
                 for rec in all_recs:
                     generic_checks(rep, rec, cls)
-                    if cls in opspec.SPECS:
-                        spec_checks(rep, rec, cls, params)
+                    if spec_cls in opspec.SPECS:
+                        spec_checks(rep, rec, spec_cls, params)
                     if cls == "Push":
                         push_checks(rep, rec)
                     if cls in STACK_TERMINALS or cls in SIMPLE_TERMINALS:
